@@ -237,7 +237,7 @@ var analyzeStream = (&StreamSpec{
 				"definitions": M{"a/b": M{"type": "object", "properties": M{"t~x": M{"type": "array", "items": []any{M{"$ref": "#/definitions/a~1b"}, M{"pattern": "x"}}, "additionalItems": M{"enum": []any{1}}}}}}},
 		}
 	},
-	Gen: func(g *Gen, i int) (any, string) { return analyzeGenDoc(g), "" },
+	Gen:  func(g *Gen, i int) (any, string) { return analyzeGenDoc(g), "" },
 	Impl: analyzeImpl,
 	Nontrivial: func(c *Case) bool {
 		return len(mustJSON(get(c.Impl, "ok", "index", "schemas"))) > 2
